@@ -963,6 +963,15 @@ class Simplifier:
                     l, r = cast_as_datetime(l), cast_as_datetime(r)
 
                 for (a, av), (b, bv) in itertools.permutations(((left, l), (right, r))):
+                    if (isinstance(a, self.LT_LTE) and isinstance(b, self.LT_LTE)) or (
+                        isinstance(a, self.GT_GTE) and isinstance(b, self.GT_GTE)
+                    ):
+                        if av == bv and type(a) is not type(b):
+                            # same bound, one strict and one inclusive comparison:
+                            # x < 1 AND x <= 1 is x < 1, x < 1 OR x <= 1 is x <= 1
+                            strict = a if isinstance(a, (exp.LT, exp.GT)) else b
+                            return (b if strict is a else a) if or_ else strict
+
                     if isinstance(a, self.LT_LTE) and isinstance(b, self.LT_LTE):
                         return left if (av > bv if or_ else av <= bv) else right
                     if isinstance(a, self.GT_GTE) and isinstance(b, self.GT_GTE):
